@@ -347,13 +347,81 @@ func c04Parsed(x *mc.Exec) {
 	}
 }
 
+// c04Wide: a type with 12 fields (beyond any "short list" fast path) and
+// selections of 0..12 names in sorted, reversed and interleaved order.
+func c04Wide(x *mc.Exec) {
+	soft := x.Choose(2, "impl") == 0
+	d := c11Wide
+	all := d.fieldNames()
+	n := x.Choose(len(all)+1, "selection size")
+	order := x.Choose(3, "order")
+	start := x.Choose(3, "start")
+	var sel []string
+	for i := 0; i < n; i++ {
+		sel = append(sel, all[(start*5+i*5)%len(all)]) // 5 is coprime with 12: distinct names
+	}
+	switch order {
+	case 0:
+		sortStrings(sel)
+	case 1:
+		sortStrings(sel)
+		for i, k := 0, len(sel)-1; i < k; i, k = i+1, k-1 {
+			sel[i], sel[k] = sel[k], sel[i]
+		}
+	}
+	rd := [][]string{{}, {"r1"}, {"r2", "r1"}}[x.Choose(3, "reldata")]
+	r := d.NewRes(soft)
+	r.Set("id", "w1")
+	r.Set("r1", "u1")
+	r.Set("r2", []string{"u2", "u1"})
+	doc := &j.Document{Data: r, RelData: map[string][]string{"w": rd}}
+	url := &j.URL{Fragments: []string{"w", "w1"}, ResType: "w", Params: &j.Params{Fields: map[string][]string{"w": append([]string{}, sel...)}, RelData: map[string][]string{}}}
+	desc := fmt.Sprintf("%s selection %v reldata %v", implName(soft), sel, rd)
+	x.Render(desc)
+	x.R.Mark("nontrivial", mc.Hash(desc))
+	var out []byte
+	var err error
+	if p := Try(func() { out, err = j.MarshalDocument(doc, url) }); p != "" || err != nil {
+		x.Fail("C04:wide:marshal", "%s: panic %q error %v", desc, p, err)
+		return
+	}
+	x.R.Add("transitions", 1)
+	var top map[string]any
+	_ = json.Unmarshal(out, &top)
+	o, _ := top["data"].(map[string]any)
+	want := map[string]bool{}
+	for _, s := range sel {
+		want[s] = true
+	}
+	got := append(keysOf(o["attributes"]), keysOf(o["relationships"])...)
+	sort.Strings(got)
+	if ws := SortedKeys(want); !reflect.DeepEqual(got, ws) {
+		x.Fail("C04:wide:fields", "%s: the resource object exposes %v, the selection is %v", desc, got, ws)
+	}
+	rels, _ := o["relationships"].(map[string]any)
+	for _, rn := range []string{"r1", "r2"} {
+		ro, present := rels[rn].(map[string]any)
+		if !present {
+			continue
+		}
+		asked := false
+		for _, a := range rd {
+			asked = asked || a == rn
+		}
+		if _, has := ro["data"]; has != asked {
+			x.Fail("C04:wide:data-presence", "%s: relationship %s has data=%v, requested=%v", desc, rn, has, asked)
+		}
+	}
+}
+
 func init() {
 	Register(&Prop{
 		ID: "C04",
-		Rule: "Engine A, all choices Full, complete product: {soft,struct} x 21 selections for type t (all 16 subsets of its 4 fields, unknown name, 'id', duplicates, no entry, nil map) x 6 relationship-data requests (4 subsets, unknown name, entry for the other type only) x 4 positions (single primary, Resources member, SoftCollection/WrapperCollection member, included) x 3 selections x 2 data requests for the second type (which shares field names with t); plus every non-empty subset obtained through the URL parser in both orders. Oracle: set arithmetic on the decoded JSON of every resource object. Every case is a distinct (selection, request, position) combination",
+		Rule: "Engine A, all choices Full, complete product: {soft,struct} x 21 selections for type t (all 16 subsets of its 4 fields, unknown name, 'id', duplicates, no entry, nil map) x 6 relationship-data requests (4 subsets, unknown name, entry for the other type only) x 4 positions (single primary, Resources member, SoftCollection/WrapperCollection member, included) x 3 selections x 2 data requests for the second type (which shares field names with t); plus every non-empty subset obtained through the URL parser in both orders. plus a 12-field type with selections of every size 0..12 in sorted, reversed and interleaved order x 3 data requests. Oracle: set arithmetic on the decoded JSON of every resource object. Every case is a distinct (selection, request, position) combination",
 		Harnesses: []Harness{
 			{Name: "C04/doc", Body: c04Body},
 			{Name: "C04/parsed", Body: c04Parsed},
+			{Name: "C04/wide", Body: c04Wide},
 		},
 	})
 }
